@@ -1,8 +1,11 @@
 /*
  * Driver for spec/PolyTransform.tla (X18, extension of C18):
- *   init data=<positions> data2=<positions> lo= hi= ranged= lim= kind=<k1>[,<k2>]
+ *   init data=<positions> data2=<positions> lo= hi= lmin2= lmax2= ranged= lim= kind=<k1>[,<k2>]
  *        a position is the value itself in a linear dimension and the exponent e of the
- *        value 10^e in a logarithmic one (-1048576: the value 0, -1048577: the value -10)
+ *        value 10^e in a logarithmic one (-1048576: the value 0, -1048577: the value -10);
+ *        kind log2: positions, lo, hi count half decades: even P is 10^(P/2), odd P the value
+ *        3*10^((P-1)/2) between the decades.  lmin2/2, lmax2/2 are the limit exponents given to a
+ *        logarithmic dimension (default 2 lo, 2 hi); a linear one is given [lo, hi].
  *   tapply   fresh linepart::array, apply(transform3, d, values) per dimension -> parts
  *   tpoly    polyline::set(transform3, value stores) -> parts, device coordinates of
  *            points() of every part the iterator visits, end points of line()
@@ -25,10 +28,14 @@ using namespace mpt;
 static double *data[2];
 static size_t dlen[2];
 static int dims;
-static int kind[2];          /* 0 lin+, 1 lin-, 2 log */
-static long long lo, hi;
+static int kind[2];          /* 0 lin+, 1 lin-, 2 log, 3 log2 */
+static long long lo, hi, lmin2, lmax2;
+static int badpos;           /* a position without value was given */
 static int ranged;
 
+static const double n10[] = {
+	1e0, 1e-1, 1e-2, 1e-3, 1e-4, 1e-5, 1e-6, 1e-7, 1e-8, 1e-9, 1e-10, 1e-11, 1e-12
+};
 static const double p10[] = {
 	1e0, 1e1, 1e2, 1e3, 1e4, 1e5, 1e6, 1e7, 1e8, 1e9, 1e10, 1e11,
 	1e12, 1e13, 1e14, 1e15, 1e16, 1e17, 1e18, 1e19, 1e20, 1e21, 1e22
@@ -45,11 +52,16 @@ static void drv_reset(void)
 
 static double value_of(long long pos, int k)
 {
-	if (k != 2) return (double) pos;
+	double f = 1.0;
+	if (k < 2) return (double) pos;
 	if (pos == POS_ZERO) return 0.0;
 	if (pos == POS_NEG) return -10.0;
-	if (pos < 0 || pos > 22) return -1.0;
-	return p10[pos];
+	if (k == 3) {   /* half decades */
+		if (pos % 2) { f = 3.0; pos -= 1; }
+		pos /= 2;
+	}
+	if (pos < -12 || pos > 22) { badpos = 1; return 1.0; }
+	return f * (pos < 0 ? n10[-pos] : p10[pos]);
 }
 
 static void setup(layout::graph::transform3 &tr)
@@ -60,11 +72,11 @@ static void setup(layout::graph::transform3 &tr)
 	for (int d = 0; d < dims; d++) {
 		int f = d + 1;
 		tr._dim[d].scale = kind[d] == 1 ? -f : f;
-		tr._dim[d].add = (float) (kind[d] == 1 ? f * hi : -f * lo);
+		tr._dim[d].add = (float) (kind[d] == 1 ? f * hi : kind[d] == 3 ? -f * (lo / 2) : -f * lo);
 		if (d == 0) tr._dim[d].to.x = 1; else tr._dim[d].to.y = 1;
-		tr._dim[d]._flags = (ranged ? TransformLimit : 0) | (kind[d] == 2 ? TransformLg : 0);
-		tr._dim[d].limit.min = (double) lo;
-		tr._dim[d].limit.max = (double) hi;
+		tr._dim[d]._flags = (ranged ? TransformLimit : 0) | (kind[d] >= 2 ? TransformLg : 0);
+		tr._dim[d].limit.min = kind[d] >= 2 ? (double) lmin2 / 2 : (double) lo;
+		tr._dim[d].limit.max = kind[d] >= 2 ? (double) lmax2 / 2 : (double) hi;
 	}
 	tr._base.x = tr._base.y = 0;
 }
@@ -103,13 +115,16 @@ static void drv_step(struct cmd *c)
 		k = drv_raw(c, "kind");
 		dims = 0;
 		while (k && *k && dims < 2) {
-			kind[dims++] = !strncmp(k, "lin-", 4) ? 1 : !strncmp(k, "log", 3) ? 2 : 0;
+			kind[dims++] = !strncmp(k, "lin-", 4) ? 1 : !strncmp(k, "log2", 4) ? 3 : !strncmp(k, "log", 3) ? 2 : 0;
 			k = strchr(k, ',');
 			if (k) ++k;
 		}
 		if (!dims) dims = 1;
 		lo = drv_int(c, "lo", 0);
 		hi = drv_int(c, "hi", 0);
+		lmin2 = drv_int(c, "lmin2", 2 * lo);
+		lmax2 = drv_int(c, "lmax2", 2 * hi);
+		badpos = 0;
 		ranged = (int) drv_int(c, "ranged", 1);
 		for (int d = 0; d < 2; d++) {
 			size_t n, i;
@@ -120,7 +135,7 @@ static void drv_step(struct cmd *c)
 			dlen[d] = n;
 		}
 		drv_begin(c);
-		j_int("x", 0);
+		j_int("x", badpos);
 		drv_dbg();
 		j_int("len", (long long) dlen[0]);
 		j_int("len2", (long long) dlen[1]);
